@@ -6,6 +6,12 @@ HERE = os.path.dirname(os.path.dirname(os.path.abspath(__file__)))
 
 # id -> (technique, level text, level note, design ref)
 CHECKS = {
+ "C02": ("model-free differential pair monitor: whole-stream run vs chunked runs, full snapshots compared",
+         "exploration: ~1.3M stream/partition pairs per quick run: every 2-way cut of short streams (incl. inside UTF-8 sequences and escape sequences), unit-at-a-time, random k-way cuts with empty chunks, for Parser, ByteParser UTF-8 and ByteParser 8-bit, plus random cuts of the seven captured sessions",
+         "both runs are the implementation itself: a chunk-independent but wrong result is other properties' business", "§6 C02"),
+ "C03": ("event-log conformance against an independently written explicit-state recogniser; class-alphabet strings enumerated with ground-state pruning",
+         "exploration with an exhaustive sub-domain: all strings up to length 4 (quick) / 6 (thorough) over a 73-character class alphabet whose proper prefixes keep the reference outside ground, both parser modes, plus digit runs of 1..40 digits for every final, random long strings and mutated sessions; the listener's dispatch tables are inside the observed system",
+         "where the statement is silent the reference follows the documented pyte recogniser; OSC R/P and multi-character OSC codes are don't-care; Cc characters ignored in text comparison", "§6 C03, App. A"),
  "C04": ("per-step Hoare monitor: reference drawing semantics on the implementation's own pre-state; zoo states x text classes, API + parser path",
          "exploration: ~1M judged draw() calls per quick run over zoo states (pending wrap, IRM, DECAWM off, margins, wide/combining content, 1-column screens) and a 40-character class pool (singles, all ordered pairs, random strings)",
          "reference semantics written from the statement; width/combining tables trusted; three corners the statement leaves open are accepted either way (DESIGN §6 C04)", "§6 C04"),
@@ -21,6 +27,9 @@ CHECKS = {
  "C08": ("per-step Hoare monitor: independent SGR fold with computed xterm palette; exhaustive single codes / extended-colour forms / pairs",
          "exploration with exhaustive sub-domains: every SGR code 0..=9999, every 38|48;5;n and boundary 38|48;2;r;g;b form, truncated forms and all ordered pairs of 70 codes from 6 attribute states, API + parser, each followed by drawing a character; plus random lists",
          "palette computed from the xterm definition; triples and longer lists sampled", "§6 C08"),
+ "C11": ("differential event-log monitor: ByteParser on chunks vs the same recogniser on std's lossy decoding of the concatenation",
+         "exploration with an exhaustive sub-domain: every boundary/ill-formed UTF-8 form and each of its truncations in four contexts, all byte strings of length <= 3 over a 24-byte class alphabet, each whole, at every 2-way cut and byte-at-a-time; random byte strings, mutated sessions and mode switches between chunks",
+         "String::from_utf8_lossy is the trusted reference decoder; a partial sequence pending at a mode switch may be dropped or replaced", "§6 C11"),
  "C12": ("per-step Hoare monitor: mode-set bookkeeping + side-effect table; exhaustive mode numbers",
          "exploration with an exhaustive sub-domain: every mode number 0..=9999 x {private, ANSI} x {SM, RM} x {API, parser} from several zoo states, plus lists, repeats and interleavings with DECSC/DECRC, resize and drawing",
          "DECCOLM corners the statement leaves open (rendition of the blanks, margins, repeated SM) accepted either way (DESIGN §6 C12)", "§6 C12"),
@@ -36,6 +45,9 @@ CHECKS = {
  "C18": ("per-step Hoare monitor: closed-form HT/HTS/TBC; every width 1..=140 enumerated",
          "exploration with an exhaustive sub-domain: default stops and HT from every column incl. pending wrap for every width 1..=140; random HTS/TBC sequences followed by an HT walk; width changes between setting and using a stop",
          "stops at or beyond the right edge are unobservable until the screen grows and are not compared", "§6 C18"),
+ "C19": ("generated OSC strings with the expected title/icon known by construction, real Screen, all terminators/introducers/cuts",
+         "exploration with an exhaustive sub-domain: 2 introducers x 19 codes x 3 terminators x 108 payloads incl. every printable ASCII singleton, every 2-way cut for codes 0/1/2, Parser and ByteParser; random payloads up to 4096 characters",
+         "codes R and P excluded (see C03)", "§6 C19"),
 }
 
 NOT_BUILT = {}
